@@ -250,7 +250,7 @@ func (vc *VC) lvalue(e SExpr, env *Env) (Term, types.Type) {
 		base := vc.evalSpec(e.X, env)
 		switch u := base.Ty.Go.Underlying().(type) {
 		case *types.Slice:
-			return vc.elem(vc.sliceArr(base.T), vc.add(vc.sliceOff(base.T), i)), u.Elem()
+			return vc.elemAt(vc.sliceArr(base.T), vc.sliceOff(base.T), i), u.Elem()
 		case *types.Pointer:
 			if a, ok := u.Elem().Underlying().(*types.Array); ok {
 				return vc.elem(base.T, i), a.Elem()
@@ -1032,16 +1032,19 @@ func (f *frame) callsiteAsserts(name string, callee *ssa.Function, common *ssa.C
 					continue
 				}
 				cond := f.evalClause(cs.Assert, env)
+				f.vc.curGroup = cs.Assert.Group
 				f.obligeNoAssume("callsite", fmt.Sprintf("%s: %s", cs.Callee, cs.Assert.Text), cs.Assert.Props, pos, cond)
 				vc.callsiteHits[cs.Assert.Src]++
 				continue
 			}
 			cond := f.evalClause(cs.Assert, env)
+			f.vc.curGroup = cs.Assert.Group
 			f.obligeNoAssume("callsite", fmt.Sprintf("%s: %s", cs.Callee, cs.Assert.Text), cs.Assert.Props, pos, Implies(g, cond))
 			vc.callsiteHits[cs.Assert.Src]++
 			continue
 		}
 		cond := f.evalClause(cs.Assert, env)
+		f.vc.curGroup = cs.Assert.Group
 		f.obligeNoAssume("callsite", fmt.Sprintf("%s: %s", cs.Callee, cs.Assert.Text), cs.Assert.Props, pos, cond)
 		vc.callsiteHits[cs.Assert.Src]++
 	}
@@ -1252,7 +1255,7 @@ func (f *frame) appendOp(common *ssa.CallCommon, result ssa.Value, pos token.Pos
 	case *types.Slice:
 		t := f.val(common.Args[1])
 		tlen = vc.sliceLen(t)
-		srcCell = func(j Term) Term { return vc.elem(vc.sliceArr(t), vc.add(vc.sliceOff(t), j)) }
+		srcCell = func(j Term) Term { return vc.elemAt(vc.sliceArr(t), vc.sliceOff(t), j) }
 	case *types.Basic:
 		strSrc = f.val(common.Args[1])
 		tlen = vc.strLen(strSrc)
@@ -1288,7 +1291,7 @@ func (f *frame) appendOp(common *ssa.CallCommon, result ssa.Value, pos token.Pos
 				vc.leafPaths(elemT, nil, func(path []pathStep, ti *typeInfo, lt types.Type) {
 					m := f.cur.get(vc, vc.memName(ti))
 					vc.assume(Forall([]Term{q}, Implies(And(vc.le(vc.idxLit(0), q, true), vc.lt(q, ln, true)),
-						Eq(Select(m, vc.applyPath(vc.elem(newobj, q), path), ti.sort), Select(m, vc.applyPath(vc.elem(arr, vc.add(off, q)), path), ti.sort)))))
+						Eq(Select(m, vc.applyPath(vc.elem(newobj, q), path), ti.sort), Select(m, vc.applyPath(vc.elemAt(arr, off, q), path), ti.sort)))))
 				})
 				vc.inQuant--
 				// the new elements
@@ -1343,7 +1346,7 @@ func (f *frame) appendOp(common *ssa.CallCommon, result ssa.Value, pos token.Pos
 		tailVal := srcVal(vc.sub(i, vc.add(off, ln)))
 		// realloc: cells [0,len) of newobj copy s, [len,newlen) get the source
 		inNewHead := And(isElem, Eq(base, newobj), vc.le(vc.idxLit(0), i, true), vc.lt(i, ln, true))
-		headVal := Select(old, vc.applyPath(vc.elem(arr, vc.add(off, i)), path), ti.sort)
+		headVal := Select(old, vc.applyPath(vc.elemAt(arr, off, i), path), ti.sort)
 		inNewTail := And(isElem, Eq(base, newobj), vc.le(ln, i, true), vc.lt(i, newlen, true))
 		newTailVal := srcVal(vc.sub(i, ln))
 		body := Ite(inplace,
@@ -1366,7 +1369,7 @@ func (f *frame) copyOp(common *ssa.CallCommon, result ssa.Value) {
 		s := f.val(common.Args[1])
 		slen = vc.sliceLen(s)
 		srcVal = func(old Term, j Term, path []pathStep, ti *typeInfo) Term {
-			return Select(old, vc.applyPath(vc.elem(vc.sliceArr(s), vc.add(vc.sliceOff(s), j)), path), ti.sort)
+			return Select(old, vc.applyPath(vc.elemAt(vc.sliceArr(s), vc.sliceOff(s), j), path), ti.sort)
 		}
 	default:
 		s := f.val(common.Args[1])
